@@ -21,7 +21,7 @@ Near-degenerate regimes (seed round 4): density-matrix targets eps away from a s
 mixed, nearly equal eigenvalues, nearly commuting with the state, nearly the state itself; eps 3e-13 .. 1e-4 on both sides of the usual isclose /
 clean-up thresholds), nearly pure MODEL states (weights_U scaled by 1e-5 .. 1e-1), vector targets nearly equal / nearly orthogonal to the state and
 targets with tiny non-zero Born probabilities (KL).  For these the Uhlmann oracle is evaluated with mpmath (40 digits; numpy fallback) and the
-tolerance is the first-order effect of an absolute perturbation 1e-14 of the spectrum of sqrt(t) rho sqrt(t) (measured: unchanged tree <= 0.1 of it).
+tolerance is the first-order effect of an absolute perturbation 4e-14 of the spectrum of sqrt(t) rho sqrt(t) (measured: unchanged tree <= 0.25 of it).
 """
 import itertools, math, time
 import numpy as np
@@ -67,6 +67,13 @@ ASSUMPTIONS = [
     "to replace the nn.Parameters of a live library module (setattr) or to subclass the RBM, which the property does not mention. States built "
     "through module= from the library's own RBM classes ARE exercised",
     "the Z entry of a state's own dictionary is never overridden here (open finding F-C04-z-override belongs to C04)",
+    "torch's softplus(threshold=20) shortcut (DESIGN 4.2: absorbed by the tolerance): a DensityMatrix whose auxiliary pre-activation U v + d exceeds 20 on "
+    "some basis state is normalised with probabilities that drop log1p(e^-x) <= 2.1e-9 per such unit while its rho table keeps it, so rho/Z has trace "
+    "1 + O(2e-9) and every mixed-state metric moves by that relative amount; for exactly these states (detected from the parameters, counted in the "
+    "histogram) the oracle tolerances are widened by twice the dropped term (first met at thorough seed 0: nv=1, weights_U=20.57, aux_bias=-0.23 -> 1.46e-9)",
+    "near-degenerate density-matrix targets / nearly pure model states: fidelity is held to an mpmath Uhlmann oracle within the first-order effect of an "
+    "absolute perturbation 4e-14 of the spectrum of sqrt(t) rho sqrt(t) (+1e-9): 2e-7 per eigenvalue below 4e-14 (sqrt of rounding noise), 4e-14/sqrt(lam) "
+    "above — nothing tighter is demanded of a float64 eigenvalue computation",
 ]
 
 LET = {"X": 0, "Y": 1, "Z": 2}
@@ -131,9 +138,9 @@ def uhlmann(t, r):
     return float(np.sum(np.sqrt(np.clip(w, 0, None))) ** 2)
 
 
-SPEC_DELTA = 1e-14    # absolute perturbation of the spectrum of sqrt(t) rho sqrt(t) the implementation is allowed (float64 eigenvalues of a
-                      # product with entries <= 1: backward error ~1e-16 x modest non-normality).  Measured on the unchanged tree over the families
-                      # below, eps 1e-16..1e-3, d = 2..16: error <= 0.1 x the tolerance derived from it
+SPEC_DELTA = 4e-14    # absolute perturbation of the spectrum of sqrt(t) rho sqrt(t) the implementation is allowed (float64 eigenvalues of a
+                      # non-symmetric product with entries <= 1: backward error ~1e-16 x non-normality).  Measured on the unchanged tree over the
+                      # families below, eps 1e-16..1e-3, d = 2..16, ~9000 cases: error <= 0.25 x the tolerance derived from it (99% <= 0.05 x)
 
 
 def uhlmann_hp(t, r):
@@ -361,9 +368,18 @@ class Tab:
         self.sp = self.space.numpy()
         self.Z = float(s.normalization(self.space))
         self.pr = s.probability(self.space).numpy().astype(float)
+        self.slack = 0.0
         if self.mixed:
             self.rho = t2c(s.rho(self.space, self.space))
             self.own = self.rho / np.real(np.trace(self.rho))
+            # torch's softplus returns x for x > 20 (drops log1p(e^-x) <= 2.1e-9, DESIGN 4.2): the normalisation of a mixed state sums
+            #   probabilities whose auxiliary term is softplus(U v + d), its rho table uses the explicit 1 + e^z -> the library's
+            #   Born probabilities rho/Z and the oracle's rho/tr(rho) differ by up to this relative amount when such a unit exists
+            try:
+                y = self.sp @ s.rbm_am.weights_U.detach().numpy().astype(float).T + s.rbm_am.aux_bias.detach().numpy().astype(float)
+                self.slack = float(np.max(np.sum(np.where(y > 20.0, np.log1p(np.exp(-np.abs(y))), 0.0), axis=1)))
+            except Exception:
+                self.slack = 0.0
         else:
             self.psi = t2c(s.psi(self.space))
             self.own = self.psi / np.sqrt(np.sum(np.abs(self.psi) ** 2))
@@ -545,6 +561,9 @@ def run_fidelity(ctx, case, tab):
             lam_min = min(float(np.linalg.eigvalsh((t + t.conj().T) / 2).min()), float(np.linalg.eigvalsh(tab.own).min()))
             tol = 1e-9 if lam_min > 1e-6 else 1e-6
             ctx.count("mixed_fidelity_tol:%g" % tol)
+        if tab.slack > 0:
+            tol += 2 * tab.slack
+            ctx.count("softplus_threshold_regime (aux unit above torch's threshold 20): tolerance + 2 x dropped term")
         rho_c = permuted(tab.rho, perm) if perm else tab.rho
         M = m.call("c10_fidelity_mixed_matrix", wire_c(tc), wire_c(rho_c), tab.Z)
         Mc = np.array([[complex(z[0], z[1]) for z in row] for row in M])
@@ -558,6 +577,9 @@ def run_fidelity(ctx, case, tab):
     if case.get("near") or case.get("near_pure"):
         ratio = abs(F - want) / (tol + 1e-9 * abs(want))
         ctx.count("near_degenerate |impl-oracle|/tol %s" % ("<=0.01" if ratio <= 0.01 else "<=0.1" if ratio <= 0.1 else "<=0.5" if ratio <= 0.5 else "<=1" if ratio <= 1 else ">1"))
+        if ratio > 0.1:
+            ctx.count("near_degenerate |impl-oracle|/tol > 0.1 at: %s nv=%d%s tol=1e%d" % (case["target_form"], case["nv"], " nearly pure model" if case.get("near_pure") else "",
+                                                                                  int(math.floor(math.log10(tol)))))
     ctx.require("fidelity in [0,1]", -max(tol, 1e-9) <= F <= 1 + max(tol, 1e-9), case, F)
     if case["target_form"] == "self":
         ctx.require("self-fidelity == 1", abs(F - 1) <= max(tol, 1e-9), case, F)
@@ -651,10 +673,13 @@ def run_kl(ctx, case, tab):
     want = float(np.mean([kl_div(a, q) for a, q in zip(tsb, qs)]))
     scale = max(1.0, max(float(np.max(np.abs(np.log(q)))) for q in qs))
     what = "KL == mean basis KL (numpy oracle)"
-    ctx.require(what, abs(K - want) <= 1e-9 * scale + 1e-9 * abs(want), case, {"impl": K, "oracle": want})
-    ctx.require("KL >= 0", K >= -1e-9 * scale, case, K)
+    sl = 2 * tab.slack                                        # softplus-threshold regime (see Tab): 0 otherwise
+    if sl > 0:
+        ctx.count("softplus_threshold_regime (aux unit above torch's threshold 20): tolerance + 2 x dropped term")
+    ctx.require(what, abs(K - want) <= 1e-9 * scale + 1e-9 * abs(want) + sl, case, {"impl": K, "oracle": want})
+    ctx.require("KL >= 0", K >= -1e-9 * scale - sl, case, K)
     if case["target_form"] == "self":
-        ctx.require("self-KL == 0 in every requested basis", abs(K) <= 1e-9 * scale, case, K)
+        ctx.require("self-KL == 0 in every requested basis", abs(K) <= 1e-9 * scale + sl, case, K)
 
 
 # ------------------------------------------------------------------ NLL
@@ -711,7 +736,7 @@ def run_nll(ctx, case, tab):
         return
     want = -float(np.mean(np.log(ps)))
     ctx.require("NLL == -mean log Born probability of each sample in its own basis",
-                abs(L - want) <= 1e-9 * max(1.0, abs(want)), case, {"impl": L, "oracle": want})
+                abs(L - want) <= 1e-9 * max(1.0, abs(want)) + 2 * tab.slack, case, {"impl": L, "oracle": want})
 
 
 # ------------------------------------------------------------------ MetricEvaluator passes the values through
@@ -745,20 +770,20 @@ def oracle_values(tab, t, bases, samples_l, sb, nv):
     """numpy values of (fidelity, KL over bases, NLL with per-sample bases) and their tolerances; None = skipped (clamp)"""
     if tab.mixed:
         lam_min = min(float(np.linalg.eigvalsh((t + t.conj().T) / 2).min()), float(np.linalg.eigvalsh(tab.own).min()))
-        F = (uhlmann(t, tab.own), 1e-9 if lam_min > 1e-6 else 1e-6)
+        F = (uhlmann(t, tab.own), (1e-9 if lam_min > 1e-6 else 1e-6) + 2 * tab.slack)
     else:
         F = (float(abs(np.vdot(t, tab.psi)) ** 2 / np.sum(np.abs(tab.psi) ** 2)), 1e-9)
     qs = [tab.born(b) for b in bases]
     K = None
     if min(float(q.min()) for q in qs) >= PMIN:
         scale = max(1.0, max(float(np.max(np.abs(np.log(q)))) for q in qs))
-        K = (float(np.mean([kl_div(born_target(tab.mixed, t, b, tab.u1), q) for b, q in zip(bases, qs)])), 1e-9 * scale)
+        K = (float(np.mean([kl_div(born_target(tab.mixed, t, b, tab.u1), q) for b, q in zip(bases, qs)])), 1e-9 * scale + 2 * tab.slack)
     idx = [int("".join(str(int(x)) for x in row), 2) for row in samples_l]
     ps = [float(tab.born(sb[i])[k]) for i, k in enumerate(idx)]
     L = None
     if ps and min(ps) >= PMIN:
         w = -float(np.mean(np.log(ps)))
-        L = (w, 1e-9 * max(1.0, abs(w)))
+        L = (w, 1e-9 * max(1.0, abs(w)) + 2 * tab.slack)
     return {"F": F, "KL": K, "NLL": L}
 
 
@@ -840,7 +865,7 @@ def run_target_history(ctx, case, tab):
         q0 = tab.born("Z" * nv)
         want["KLnone"] = None
         if float(q0.min()) >= PMIN:
-            want["KLnone"] = (kl_div(born_target(tab.mixed, t, "Z" * nv, tab.u1), q0), 1e-9 * max(1.0, float(np.max(np.abs(np.log(q0))))))
+            want["KLnone"] = (kl_div(born_target(tab.mixed, t, "Z" * nv, tab.u1), q0), 1e-9 * max(1.0, float(np.max(np.abs(np.log(q0))))) + 2 * tab.slack)
         for name, key, fn in calls:
             ok, val = ctx.call(name, case, fn)
             if not ok:
@@ -990,6 +1015,8 @@ def _cases_for_state(ctx, base, tab, lite=False, near=None, only_near=False):
             first = ["pure+white", "pure+rand", "basis+white", "rank-k+rand"] if tab.mixed else ["near-self", "near-orthogonal"]
             picks = [first[int(rng.integers(len(first)))], first[int(rng.integers(len(first)))]] + \
                     [fams[int(rng.integers(len(fams)))] for _ in range(2 if tab.mixed else 1)]
+            if tab.mixed and d >= 16:
+                picks = picks[1:3]               # the 40-digit oracle costs ~0.3 s at d = 16: one of each group
             for fam in picks:
                 e = near_eps(rng)
                 yield fid(fam, math.sqrt(e) if fam in sq else e)
@@ -1310,7 +1337,7 @@ def run(ctx):
     for shape in shapes(ctx)["mixed"]:
         if ctx.thorough or shape[0] not in done:
             done.add(shape[0])
-            for _ in range(3 if ctx.thorough else 1):
+            for _ in range((3 if shape[0] < 4 else 1) if ctx.thorough else 1):
                 one_state(ctx, "mixed", shape, near="model", only_near=True, near_pure=float(10.0 ** ctx.rng.uniform(-5.0, -1.0)))
 
 
